@@ -82,6 +82,7 @@ def run_one(ctx, rng, fn, kind, impl, mode, ml, mi, calls, cuts, order, seed):
     ref = RefMap()
     committed_ref = {}
     nontrivial = False
+    f33 = False
     with env.sized(ml, mi):
         st = Storage()
         jar = Jar(st, order)
@@ -109,7 +110,15 @@ def run_one(ctx, rng, fn, kind, impl, mode, ml, mi, calls, cuts, order, seed):
             cut = cuts.get(i)
             if cut == "commit":
                 f16 = f16_condition(env, t)
+                st_root = t.__getstate__()
+                emb = t._firstbucket if (st_root is not None and len(st_root) == 1) else None
+                emb_had_oid = emb is not None and emb._p_oid is not None
                 jar.commit()
+                if emb is not None and not emb_had_oid and emb._p_oid is not None:
+                    # the leaf embedded in the ROOT received an oid during this commit although the root does not
+                    # reference it: a registered object that is no longer part of the tree still points to it
+                    # (finding F33); from here on the root's record and the leaf's own record can disagree
+                    f33 = True
                 pm = paths_of(t)
                 seq = []
                 for x in jar.last_commit_seq:
@@ -167,7 +176,7 @@ def run_one(ctx, rng, fn, kind, impl, mode, ml, mi, calls, cuts, order, seed):
                     chain, descent, inv = None, None, ["reader-raised-" + type(e).__name__ + (":" + str(e)[:70] if isinstance(e, RuntimeError) else "")]
                 wantitems = [(k, 0) for k, _ in ref.items()] if setlike else ref.items()
                 if chain != wantitems or descent != wantitems or inv:
-                    sig = "%s:commit-reload:%s" % (impl, "embedded-leaf-below-root" if f16 else "reader-differs")
+                    sig = "%s:commit-reload:%s" % (impl, "embedded-leaf-below-root" if f16 else ("root-leaf-got-oid-from-detached-object" if f33 else "reader-differs"))
                     ctx.oracle_failure(sig, "%s%s/%s sizes=(%d,%d) order=%s: after commit #%d the fresh reader sees contents-by-chain-ok=%s by-descent-ok=%s unsound=%s%s" % (
                         fn, kind, impl, ml, mi, order, i, chain == wantitems, descent == wantitems, inv[:2],
                         " (a non-root interior node held a single never-stored leaf at commit)" if f16 else ""),
@@ -191,7 +200,7 @@ def run_one(ctx, rng, fn, kind, impl, mode, ml, mi, calls, cuts, order, seed):
                     items = None
                 wantitems = [(k, 0) for k, _ in ref.items()] if setlike else ref.items()
                 if items != wantitems:
-                    ctx.oracle_failure("%s:abort:contents-differ" % impl, "%s%s/%s after abort at #%d the writer shows %r, last committed %r" % (fn, kind, impl, i, items, wantitems),
+                    ctx.oracle_failure("%s:abort:contents-differ%s" % (impl, ":root-leaf-got-oid-from-detached-object" if f33 else ""), "%s%s/%s after abort at #%d the writer shows %r, last committed %r" % (fn, kind, impl, i, items, wantitems),
                                        {"family": fn, "kind": kind, "impl": impl, "mode": mode, "calls": calls[:i + 1], "cuts": {str(k): v for k, v in cuts.items() if k <= i}, "sizes": [ml, mi], "order": order})
                     break
                 steps.append("SAbort %s" % kvs(items))
@@ -267,6 +276,22 @@ def run(ctx):
             calls.append(("len",))
         cuts[len(calls) - 1] = "commit"
         order = rng.choice(["lifo", "lifo", "fifo", "reversed"])
+        if rng.random() < 0.06 and mode != "none-int":
+            # a bucket unlinked in this transaction still points at the leaf the root ends up embedding (finding F33)
+            setl = kind == "TreeSet"
+            ml, mi = 2, 6
+            ins = (lambda k: ("add", k)) if setl else (lambda k: ("set", k, rng.randrange(4)))
+            rem = (lambda k: ("remove", k)) if setl else (lambda k: ("del", k))
+            b = sorted(rng.sample(range(2, 30, 4), 4))
+            top = b[3] + 1
+            calls = [ins(k) for k in b]
+            cuts = {len(calls) - 1: "commit"}
+            calls += [ins(b[0] + 1), ins(b[0] + 2), ins(top)]
+            calls += [rem(k) for k in (b[0], b[0] + 1, b[0] + 2, b[1], b[2])]
+            cuts[len(calls) - 1] = "commit"
+            calls += [rem(b[3]), ("len",)]
+            cuts[len(calls) - 1] = "commit"
+            order = rng.choice(["fifo", "lifo", "reversed"])
         ctx.progress({"family": fn, "kind": kind, "mode": mode, "sizes": [ml, mi], "calls": calls, "cuts": {str(k): v for k, v in cuts.items()}, "order": order})
         for impl in ("C", "Py"):
             steps, nontriv = run_one(ctx, rng, fn, kind, impl, mode, ml, mi, calls, cuts, order, it)
